@@ -1,6 +1,7 @@
 package harness
 
 import (
+	"sync/atomic"
 	"strings"
 	"fmt"
 	"os"
@@ -275,6 +276,7 @@ func TestE3AppendEntries(t *testing.T) {
 	seqs := allTermSeqs(5, 3)
 	root, _ := os.MkdirTemp(ScratchRoot(), "verif-e3ae-")
 	defer os.RemoveAll(root)
+	logOrderProbe(rep, root)
 	synctest.Test(t, func(t *testing.T) {
 		time.Sleep(time.Hour) // move away from the epoch so that "stale contact" is representable
 		var tn *TNode
@@ -396,4 +398,69 @@ func oracleDurableTV(pre, post NodeSt, eff string) []string {
 		return []string{fmt.Sprintf("the handler returned with term %d and vote %d in memory (before: %d, %d) but the last write to the term/vote storage in this call was %q: after a crash the node would come back with an older term or without its vote", post.Term, post.Vote, pre.Term, pre.Vote, last)}
 	}
 	return nil
+}
+
+// logOrderProbe: two AppendEntries requests reach a follower while the disk is slow. The first (term 3,
+// entries 1-2) has its log append held back; the second (term 4, a different entry 1) is issued meanwhile;
+// then the append is let go. Run one after the other in either order the two requests leave the same state
+// (term 4, the log of the term-4 leader: A then B truncates A's entries, B then A rejects A), so whatever the
+// node does about locking that is the only correct end state (C06: a log only moves toward its sender's).
+func logOrderProbe(rep *Report, root string) {
+	tn, err := NewTNode(NodeOpts{ID: 1, Dir: root + "/order"})
+	if err != nil {
+		rep.Notes = append(rep.Notes, "log-order probe skipped: "+err.Error())
+		return
+	}
+	pre := NodeSt{ID: 1, Role: "F", Term: 3, Log: mkLog([]uint64{}, 0, 1), Cfg: cfg3, Com: cfg3, SV: true, ET: 300, LD: 100}
+	if err := tn.Set(pre); err != nil {
+		rep.Notes = append(rep.Notes, "log-order probe skipped: "+err.Error())
+		return
+	}
+	line := "LOG-ORDER | AppendEntries of term 3 from node 2 (entries 1-2) with its log append held back, then AppendEntries of term 4 from node 3 (another entry 1), then the append is let go"
+	entered, release := make(chan struct{}, 1), make(chan struct{})
+	var first atomic.Bool
+	first.Store(true)
+	tn.Lg.Gate = func() {
+		if first.CompareAndSwap(true, false) {
+			entered <- struct{}{}
+			<-release
+		}
+	}
+	doneA, doneB := make(chan struct{}), make(chan struct{})
+	go func() {
+		var r raft.AppendEntriesResponse
+		tn.R.AppendEntries(&raft.AppendEntriesRequest{LeaderID: ID(2), Term: 3, Entries: EntsToRaft([]Ent{{Index: 1, Term: 3, Kind: 1, Data: 131}, {Index: 2, Term: 3, Kind: 1, Data: 231}})}, &r)
+		close(doneA)
+	}()
+	held := false
+	select {
+	case <-entered:
+		held = true
+	case <-time.After(2 * time.Second):
+	}
+	go func() {
+		var r raft.AppendEntriesResponse
+		tn.R.AppendEntries(&raft.AppendEntriesRequest{LeaderID: ID(3), Term: 4, Entries: EntsToRaft([]Ent{{Index: 1, Term: 4, Kind: 1, Data: 141}})}, &r)
+		close(doneB)
+	}()
+	overlapped := false
+	select {
+	case <-doneB:
+		overlapped = true
+	case <-time.After(150 * time.Millisecond):
+	}
+	close(release)
+	<-doneA
+	<-doneB
+	tn.Lg.Gate = nil
+	post := tn.Get()
+	rep.Case(line, held)
+	rep.Hit(map[bool]string{true: "log-order:second-ran-during-append", false: "log-order:second-waited"}[overlapped])
+	want := "L0.0:1.4.1.141"
+	if post.Term != 4 || post.Log.String() != want {
+		rep.Add(Finding{Kind: "oracle", Property: "C06", Oracle: "two overlapping AppendEntries requests leave a log that neither order of the two requests produces (the follower's log must be the term-4 sender's)", Case: line,
+			Impl:      fmt.Sprintf("term=%d log=%s; the second request returned while the first append was held back: %v", post.Term, post.Log.String(), overlapped),
+			Detail:    "want term=4 log=" + want,
+			Signature: map[string]string{"oracle": "handlers-serializable-log"}})
+	}
 }
